@@ -654,6 +654,10 @@ func (b *BinaryExpression) Type() *Type {
 func (b *BinaryExpression) infer() {
 	if b.T == EMPTY_ARRAY {
 		b.T = &Type{Name: ARRAY, Sub: ANY_TYPE, Fixed: true}
+	} else if b.T != nil && b.T.Name == ARRAY && (b.Op == OP_PLUS || b.Op == OP_ASTERISK) {
+		if t := b.T.infer(); !t.Equals(b.T) { // untyped empty literals inside the operands
+			wrapAny(b, t)
+		}
 	}
 }
 
@@ -727,6 +731,10 @@ func (s *SliceExpression) Type() *Type {
 func (s *SliceExpression) infer() {
 	if s.T == EMPTY_ARRAY {
 		s.T = &Type{Name: ARRAY, Sub: ANY_TYPE, Fixed: true}
+	} else if s.T != nil && s.T.Name == ARRAY {
+		if t := s.T.infer(); !t.Equals(s.T) { // untyped empty literals inside the sliced array
+			wrapAny(s, t)
+		}
 	}
 }
 
@@ -787,8 +795,8 @@ func (d *GroupExpression) Type() *Type {
 }
 
 func (d *GroupExpression) infer() {
-	if d.Type() == EMPTY_ARRAY {
-		d.Expr.(inferrer).infer()
+	if inf, ok := d.Expr.(inferrer); ok {
+		inf.infer()
 	}
 }
 
